@@ -2,13 +2,15 @@ SPECIFICATION SpecG
 CONSTANTS
   NW = 3
   NV = 2
-  NA = 1
+  NA = 2
   Kinds = {"ArrayView", "OwnedArray", "FixedArray", "FixedArrayView"}
-  Modes = {"default", "src", "ptr", "wptr", "size", "copy", "fview"}
-  Acts = {"Construct", "Assign", "Reset", "ResetPtr", "Resize", "Write", "Destroy", "SrcMake", "SrcWrite", "SrcResize", "SrcDestroy"}
+  Modes = {"default", "src", "ptr", "wptr", "size", "copy", "move", "fview"}
+  Acts = {"Construct", "Assign", "Reset", "ResetPtr", "Resize", "Write", "Destroy", "SrcMake", "SrcWrite", "SrcResize", "SrcDestroy", "SelfAssign", "SelfPtr", "SelfVal", "EdgeEmpty"}
+  Sizes = {0, 1, 2, 3, 4}
   MaxLen = 4
   ArrLen = 3
   PtrSel = "some"
+  Palettes = {0}
   Sym = FALSE
   Excl = {}
   Variant = "contract"
